@@ -19,6 +19,7 @@ import MysyncModel.Replay.C11
 import MysyncModel.Replay.C19
 import MysyncModel.Replay.C10
 import MysyncModel.Replay.Zk
+import MysyncModel.Replay.Sim
 
 open Lean Replay
 
@@ -40,7 +41,8 @@ def handlers : List (String × Handler) := [
   ("c11", Replay.C11.handle),
   ("c19sync", Replay.C19.handle),
   ("c10pass", Replay.C10.handle),
-  ("zkhist", Replay.ZkH.handle)
+  ("zkhist", Replay.ZkH.handle),
+  ("simrun", Replay.Sim.handle)
 ]
 
 partial def loop (h : IO.FS.Stream) (seen : Std.HashSet UInt64) (a : Acc) : IO Acc := do
